@@ -62,7 +62,7 @@ def run(site):
                 "-Q", os.path.join(d, "t"), "DaspMut"] + FLAGS
         for rel, what in (("gen/RingGen.v", "generated model ill-typed"), ("t/RingGenGlue.v", "glue ill-typed"),
                           ("t/RingGenEquiv.v", "equivalence breaks")):
-            p = subprocess.run(["timeout", "600"] + base + [os.path.join(d, rel)], stdout=subprocess.PIPE, stderr=subprocess.STDOUT, text=True)
+            p = subprocess.run(["timeout", "600"] + base + [os.path.join(d, rel)], stdout=subprocess.PIPE, stderr=subprocess.STDOUT, text=True, cwd=d)
             if p.returncode != 0:
                 m = re.search(r"\(in proof ([\w']+)\)", p.stdout)
                 lemma = m.group(1) if m else None
